@@ -10,6 +10,11 @@ import Qfx.Lemmas.CodecXml
 import Qfx.Lemmas.CodecDictSegs
 import Qfx.Lemmas.CodecDictStack
 import Qfx.Lemmas.CodecDictNest
+import Qfx.Lemmas.CodecAnyDict
+import Qfx.Lemmas.CodecTenWitness
+import Qfx.Lemmas.CodecDictItems
+import Qfx.Lemmas.CodecScanBridge
+import Qfx.Lemmas.CodecScanWitness
 import Qfx.Lemmas.CodecDictExample
 open Qfx Qfx.Spec
 
@@ -106,12 +111,31 @@ theorem C11_finish_checks_length (fields : List TagValue) (c : PCore) (r : List 
   · cases h
   · cases h
 
+/-- running out of fields succeeds only through the final length check (in `parseGroup`, when the field parsed last is CheckSum) -/
+theorem outOfFields_ends (fx : Fixes) (mode : Mode) (fields : List TagValue) (idx : Nat) (c : PCore) (r : List TagValue × PCore)
+    (h : outOfFields fx mode fields idx c = .ok r) : ∃ fs c0, finishParse fs c0 = .ok r := by
+  unfold outOfFields at h
+  split at h
+  · cases mode with
+    | main => cases h
+    | grp dm t g =>
+      simp only [] at h
+      split at h
+      · split at h
+        · split at h
+          · exact ⟨_, _, h⟩
+          · cases h
+        · cases h
+      · cases h
+      · cases h
+  · cases h
+
 /-- every successful run of the parse loop (main loop and `parseGroup`, any dictionaries) ends in the final length check -/
 theorem C11_loop_ends_in_length_check (fx : Fixes) (d : Dicts) (mode : Mode) (fields : List TagValue) (idx : Nat) (c : PCore)
     (r : List TagValue × PCore) (h : parseLoop fx d mode fields idx c = .ok r) :
     ∃ fs c0, finishParse fs c0 = .ok r := by
   fun_induction parseLoop fx d mode fields idx c
-  all_goals (first | (cases h; done) | (exact ⟨_, _, h⟩) | (rename_i ih; exact ih h) | (rename_i ih _; exact ih h))
+  all_goals (first | (cases h; done) | (exact ⟨_, _, h⟩) | (exact outOfFields_ends _ _ _ _ _ _ h) | (rename_i ih; exact ih h) | (rename_i ih _; exact ih h))
 
 /-- "… or whose BodyLength disagrees with its content, is rejected with an error": whenever parsing succeeds, the
     BodyLength read back from the parsed header equals the summed length of all fields except 8, 9, 10 — unless the
@@ -201,6 +225,39 @@ theorem C11_faithful_dict_nogroups (fx : Fixes) (d : Dicts) (t8 t9 t35 : TagValu
     intro s; cases s <;> rfl
   rw [hsec]
   exact getBytes_view _ _ _ j tv hfind hj
+
+/-- FIDELITY UNDER ANY DICTIONARIES WHATSOEVER, EVERY WELL-FORMED WIRE MESSAGE (fixed code; the corrected `C11_faithful_full`).
+    `d` is arbitrary — no dictionary, an application dictionary, transport + application dictionaries, repeating groups of any depth,
+    adjacent groups, groups followed by header or trailer fields, user-defined header/trailer tags, fields unknown to the dictionary,
+    duplicated tags, a MsgType the dictionary does not know, even a dictionary that lists CheckSum inside a group.  For every wire message
+    `8, 9, 35, pre…, 10` (`WireMsg`: tag texts that `atoi` reads, SOH-free values, no further field whose NUMERIC tag is 9 / 10 / 212,
+    BodyLength = Σ field lengths) the parse succeeds, `Message.fields` is exactly the wire's field list in order and `Bytes()` returns
+    the wire.  (A loop invariant that does not depend on what the dictionaries make of the fields: `wire_step`, `wire_loop` in
+    Lemmas/CodecAnyDict.lean.) -/
+theorem C11_faithful_anydict (d : Dicts) (t8 t9 t35 : TagValue) (pre : List TagValue) (t10 : TagValue)
+    (hw : WireMsg t8 t9 t35 pre t10)
+    (hbl : atoi t9.value = .ok ((fieldsLength (t8 :: t9 :: t35 :: (pre ++ [t10])) : Nat) : Int)) :
+    ∃ m, parseMessage Fixes.cur d (wireOf (t8 :: t9 :: t35 :: (pre ++ [t10]))) = .ok m ∧
+      m.fields = t8 :: t9 :: t35 :: (pre ++ [t10]) ∧
+      m.bytes Fixes.cur = .ok (wireOf (t8 :: t9 :: t35 :: (pre ++ [t10])), m) := by
+  obtain ⟨c', h⟩ := parse_wire_anydict (d := d) t8 t9 t35 pre t10 hw hbl
+  exact ⟨_, h, rfl, rfl⟩
+
+/-- WHAT "THE SECTION ITS TAG BELONGS TO" CANNOT PROMISE UNDER AN ARBITRARY DICTIONARY: under the dictionary `tenD` — message type D with
+    a repeating group 453 whose members are 448 and CheckSum (10) — the well-formed message `8=F 9=17 35=D 453=1 448=a 10=000` parses
+    with all its fields, but `parseGroup` takes `10=` for a member of the group: the body's field for 453 covers `453=1 448=a 10=000` and
+    the TRAILER HAS NO CheckSum.  (`parseGroup` runs out of fields, adds the group to the body and returns; `doParsing` ends its loop
+    because the field parsed last is CheckSum; before the fix of D2 the same input indexed past the field array.)  This path was found
+    by the codec family replaying this witness on the real parser (`junk.checksum-member`, dictionary `@TEN` loaded by
+    `datadictionary.Parse`): the model used to answer "message ends without CheckSum" there and was corrected (`outOfFields`). -/
+theorem C11_checksum_member_swallowed :
+    ∃ (d : Dicts) (t8 t9 t35 : TagValue) (pre : List TagValue) (t10 : TagValue) (m : Message),
+      WireMsg t8 t9 t35 pre t10 ∧ atoi t9.value = .ok ((fieldsLength (t8 :: t9 :: t35 :: (pre ++ [t10])) : Nat) : Int) ∧
+      parseMessage Fixes.cur d (wireOf (t8 :: t9 :: t35 :: (pre ++ [t10]))) = .ok m ∧
+      m.fields = t8 :: t9 :: t35 :: (pre ++ [t10]) ∧ alFind m.trailer.lookup 10 = none ∧
+      alFind m.body.lookup 453 = some (.view 3 3) := by
+  obtain ⟨m, h1, h2, h3, h4⟩ := ten_swallowed
+  exact ⟨tenD, w8, w9, w35, [w453, w448], w10, m, ten_wireMsg, ten_bodyLength, h1, h2, h3, h4⟩
 
 /-- WITH DICTIONARIES, MESSAGES WITH ANY NUMBER OF REPEATING GROUPS (fixed code): the wire
     `8, 9, 35, (plain…, G=<n>, <members>, z)…, plain…, 10` — every run `Seg` = plain fields, the count field of a group `G` of the
@@ -304,9 +361,101 @@ theorem C11_faithful_dict_wellnested (d : Dicts) (mt : Bytes) (fs : List DNode) 
   C11_faithful_dict_groups_anydepth d mt fs ha t8 t9 t35 t10 segs post hw8 hw9 hw35 hw10 h8 h9 h35 h10 hv
     (fun s hs => (hsegs s hs).ok) hpost hng10 hh10 hbl
 
+/-- THE SECTION MAPS UNDER DICTIONARIES, ANY ARRANGEMENT OF PLAIN FIELDS AND REPEATING GROUPS (the corrected `C11_retrievable_full` with
+    dictionaries; fixed code).  `fs` = the application dictionary's field list of the message type; the message is `8, 9, 35, items…, 10`
+    where `items` is ANY sequence (`ItemsN`, described from the dictionaries alone) of
+      * plain fields (tag ≠ 9, 10, 35, 212; not the count field of a group), and
+      * repeating groups of `fs`: count field + member fields that are well nested w.r.t. the dictionary (`GroupWalk`, any depth) over a
+        tag-disjoint tree (`TreeOK`),
+    a group being followed by ANYTHING whose tag its dictionary tree does not list: a plain body field, a HEADER or TRAILER field — built-in
+    or defined by the TRANSPORT dictionary only (user-defined tags; this is where the seeded change C11-m1 lives) —, DIRECTLY the count
+    field of another group, or CheckSum.  Then the parse succeeds, `Message.fields` = the wire's fields, `Bytes()` = the wire, and the three
+    section maps are EXACTLY the additions in wire order (`itmAdds`): every plain field added to the section `secOf d` assigns its tag
+    (transport dictionary ∪ built-in lists) as a one-field view, every group added to the body as ONE view over its count field and all its
+    member fields, CheckSum to the trailer; the member fields add nothing. -/
+theorem C11_sections_dict_items (d : Dicts) (mt : Bytes) (fs : List DNode) (ha : AppMsg d mt fs)
+    (t8 t9 t35 t10 : TagValue) (items : List Itm) (s' : Option (List DNode))
+    (hw8 : IsWire t8) (hw9 : IsWire t9) (hw35 : IsWire t35) (hw10 : IsWire t10)
+    (h8 : t8.tag = 8) (h9 : t9.tag = 9) (h35 : t35.tag = 35) (h10 : t10.tag = 10) (hv : t35.value = mt)
+    (hok : ItemsN d fs none items s') (hclose : ClosesN s') (hh10 : isHeaderField d 10 = false)
+    (hbl : atoi t9.value = .ok ((fieldsLength (t8 :: t9 :: t35 :: (flatItms items ++ [t10])) : Nat) : Int)) :
+    ∃ m, parseMessage Fixes.cur d (wireOf (t8 :: t9 :: t35 :: (flatItms items ++ [t10]))) = .ok m ∧
+      m.fields = t8 :: t9 :: t35 :: (flatItms items ++ [t10]) ∧
+      m.bytes Fixes.cur = .ok (wireOf (t8 :: t9 :: t35 :: (flatItms items ++ [t10])), m) ∧
+      ∀ s, m.sec s = applyAdds s (itmAdds d 3 items ++ [(Sec.t, 10, Field.view (3 + (flatItms items).length) 1)]) (initSec t8 t9 t35 s) := by
+  obtain ⟨so', hok', hso'⟩ := itemsN_ok hok none trivial
+  obtain ⟨m, h1, h2, h3, h4⟩ := parse_dict_items (d := d) ha t8 t9 t35 t10 items so' hw8 hw9 hw35 hw10 h8 h9 h35 h10 hv hok'
+    (closesN_ok hclose hso') hh10 hbl
+  exact ⟨m, h1, h2, by simp [Message.bytes, h3], h4⟩
+
+/-- RETRIEVABILITY, from the above: (a) a plain field at wire position `3 + |A|` is returned by `GetBytes` from the section of its tag with its
+    wire value, provided nothing later is added under the same tag to the same section (a later plain field with that tag in that
+    section, or — for body tags — a later group with that tag); (b) a group is found in the body as the field holding exactly its count
+    field and all its member fields, under the same proviso. -/
+theorem C11_retrievable_dict_items (d : Dicts) (mt : Bytes) (fs : List DNode) (ha : AppMsg d mt fs)
+    (t8 t9 t35 t10 : TagValue) (items : List Itm) (s' : Option (List DNode))
+    (hw8 : IsWire t8) (hw9 : IsWire t9) (hw35 : IsWire t35) (hw10 : IsWire t10)
+    (h8 : t8.tag = 8) (h9 : t9.tag = 9) (h35 : t35.tag = 35) (h10 : t10.tag = 10) (hv : t35.value = mt)
+    (hok : ItemsN d fs none items s') (hclose : ClosesN s') (hh10 : isHeaderField d 10 = false)
+    (hbl : atoi t9.value = .ok ((fieldsLength (t8 :: t9 :: t35 :: (flatItms items ++ [t10])) : Nat) : Int)) :
+    ∃ m, parseMessage Fixes.cur d (wireOf (t8 :: t9 :: t35 :: (flatItms items ++ [t10]))) = .ok m ∧
+      (∀ (A B : List Itm) (tv : TagValue), items = A ++ .plain tv :: B → tv.tag ≠ 10 →
+        (∀ a ∈ itmAdds d (3 + (flatItms A).length + 1) B, ¬ (a.1 = secOf d tv.tag ∧ a.2.1 = tv.tag)) →
+        (m.sec (secOf d tv.tag)).getBytes m.fields tv.tag = .ok tv.value) ∧
+      (∀ (A B : List Itm) (g0 : TagValue) (M : List TagValue), items = A ++ .group g0 M :: B → g0.tag ≠ 10 →
+        (∀ a ∈ itmAdds d (3 + (flatItms A).length + 1 + M.length) B, ¬ (a.1 = Sec.b ∧ a.2.1 = g0.tag)) →
+        ∃ f, alFind m.body.lookup g0.tag = some f ∧ f.items m.fields = g0 :: M) := by
+  obtain ⟨m, h1, h2, _, h4⟩ := C11_sections_dict_items d mt fs ha t8 t9 t35 t10 items s' hw8 hw9 hw35 hw10 h8 h9 h35 h10 hv hok hclose hh10 hbl
+  refine ⟨m, h1, ?_, ?_⟩
+  · intro A B tv hsplit hn10 hlater
+    have hadds : itmAdds d 3 items ++ [(Sec.t, (10 : Tag), Field.view (3 + (flatItms items).length) 1)] =
+        itmAdds d 3 A ++ (secOf d tv.tag, tv.tag, Field.view (3 + (flatItms A).length) 1) ::
+          (itmAdds d (3 + (flatItms A).length + 1) B ++ [(Sec.t, (10 : Tag), Field.view (3 + (flatItms items).length) 1)]) := by
+      rw [hsplit, itmAdds_append]; simp [itmAdds, List.append_assoc]
+    have hfind : alFind (m.sec (secOf d tv.tag)).lookup tv.tag = some (.view (3 + (flatItms A).length) 1) := by
+      rw [h4, hadds]
+      apply applyAdds_find_last
+      intro a ha'
+      simp only [List.mem_append, List.mem_singleton] at ha'
+      rcases ha' with e | e
+      · exact hlater a e
+      · subst e; intro h; exact hn10 h.2.symm
+    apply getBytes_view _ _ _ _ tv hfind
+    rw [h2, hsplit]
+    have hL : t8 :: t9 :: t35 :: (flatItms (A ++ .plain tv :: B) ++ [t10]) =
+        (t8 :: t9 :: t35 :: flatItms A) ++ tv :: (flatItms B ++ [t10]) := by
+      simp [flatItms, Itm.flat, List.flatMap_append]
+    rw [hL, List.getElem?_append_right (by simp; omega)]
+    have : 3 + (flatItms A).length - (t8 :: t9 :: t35 :: flatItms A).length = 0 := by simp; omega
+    rw [this]; rfl
+  · intro A B g0 M hsplit hn10 hlater
+    have hadds : itmAdds d 3 items ++ [(Sec.t, (10 : Tag), Field.view (3 + (flatItms items).length) 1)] =
+        itmAdds d 3 A ++ (Sec.b, g0.tag, Field.view (3 + (flatItms A).length) (1 + M.length)) ::
+          (itmAdds d (3 + (flatItms A).length + 1 + M.length) B ++ [(Sec.t, (10 : Tag), Field.view (3 + (flatItms items).length) 1)]) := by
+      rw [hsplit, itmAdds_append]; simp [itmAdds, List.append_assoc]
+    have hfind : alFind (m.sec .b).lookup g0.tag = some (.view (3 + (flatItms A).length) (1 + M.length)) := by
+      rw [h4, hadds]
+      apply applyAdds_find_last
+      intro a ha'
+      simp only [List.mem_append, List.mem_singleton] at ha'
+      rcases ha' with e | e
+      · exact hlater a e
+      · subst e; intro h; cases h.1
+    refine ⟨_, hfind, ?_⟩
+    rw [h2, hsplit]
+    have hL : t8 :: t9 :: t35 :: (flatItms (A ++ .group g0 M :: B) ++ [t10]) =
+        (t8 :: t9 :: t35 :: flatItms A) ++ ((g0 :: M) ++ (flatItms B ++ [t10])) := by
+      simp [flatItms, Itm.flat, List.flatMap_append]
+    have e : 3 + (flatItms A).length = (t8 :: t9 :: t35 :: flatItms A).length := by simp; omega
+    have e2 : 1 + M.length = (g0 :: M).length := by simp; omega
+    simp only [Field.items]
+    rw [hL, e, List.drop_left, e2, List.take_left]
+
 /-! non-vacuity of `SegOKN` (three nesting levels, a pop over two levels): Qfx/Lemmas/CodecDictExample.lean -/
 example := @exSegOKN
 example := @exSegNested
+/-! non-vacuity of `ItemsN`: a three-level group, DIRECTLY another group, DIRECTLY a user-defined trailer tag of the transport dictionary -/
+example := @exItemsN
 
 /-! non-vacuity of `SegOK` (a run with a two-entry NoPartyIDs group, nested NoPartySubIDs): Qfx/Lemmas/CodecDictExample.lean -/
 example := @exSegOK
@@ -370,16 +519,80 @@ theorem C11_getters_total (d : Dicts) (w : Bytes) (m : Message) (hm : parseMessa
   have hv : ViewsOK m.fields (m.sec s) := by cases s <;> assumption
   exact ⟨getBytes_nofault hv t, getInt_nofault' hv t, fun f tmpl hf => getGroup_nofault hv t f hf tmpl⟩
 
-/-! ## not (yet) theorems — checked on every run by `Qfx.Spec.monParse` on the implementation and by the correspondence -/
+/-! ## the statements in the vocabulary of the independent scanner (`Qfx.Spec.scanFields` / `wfScanned` / `tagNum`) -/
 
-/-- for every well-formed wire message: success, fields in wire order with exact values, raw bytes unchanged -/
+/-- the statement as it used to stand here (a scanner that compares tag TEXTS against `8`, `9`, `10`; any dictionaries) -/
 def C11_faithful_full : Prop :=
   ∀ (d : Dicts) (w : Bytes) (fs : List WField), scanFields w = some fs → wfScanned fs = true →
     (fs.all fun f => (tagNum f.tagText).isSome && tagNum f.tagText != some 212) →
     ∃ m, parseMessage Fixes.cur d w = .ok m ∧ m.raw = some w ∧
       m.fields = fs.map (fun f => { tag := (tagNum f.tagText).getD 0, value := f.val, bytes := f.raw })
 
-/-- every field is retrievable from the section its tag belongs to (no dictionary) -/
+/-- … IS FALSE AS WRITTEN: `8=F 9=11 35=D 010=x 10=198` is well-formed for the scanner (the tag text `010` is not `10`, BodyLength and CheckSum
+    are right), all tag texts are numeric and none reads 212 — but the parser reads `010` as CheckSum, ends its loop there, leaves the
+    last slot of the field array empty and rejects the message with "incorrect message length" (`z_rejected`; replayed on the real parser
+    by the codec family, `junk.leadzero-checksum`: implementation and model both answer err).  The same happens with `09`, `08`, `0212`:
+    the side condition must be about NUMERIC tags (`C11_faithful_scanned`). -/
+theorem C11_faithful_full_false : ¬ C11_faithful_full := by
+  intro h
+  obtain ⟨m, hm, _, _⟩ := h Dicts.none zWire zScanned z_scan z_wf z_tags
+  rw [z_rejected Dicts.none rfl] at hm
+  cases hm
+
+/-- THE CORRECTED STATEMENT, ANY DICTIONARIES (fixed code): every byte string that the independent scanner splits into fields
+    (`scanFields`) and finds well-formed (`wfScanned`: 8, 9, 35 first, 10 last, BodyLength = bytes between the BodyLength field and the
+    CheckSum field, CheckSum right), all tag texts numeric (`tagNum`: optional '-', 1–18 digits), and NO FIELD BETWEEN MsgType AND CheckSum
+    WHOSE NUMERIC TAG IS 8, 9, 10 OR 212, of less than 2^63 bytes — parses under ANY dictionaries `d`; `Message.fields` is exactly the
+    scanned field list (tag = the number, value, raw bytes) in order, and the raw bytes are kept.  (`scanLoop_wire`: what the scanner
+    accepts is a concatenation of wire-form fields; `atoi_of_tagNum`: the scanner's number is `atoi`'s; `parse_wire_anydict`.) -/
+theorem C11_faithful_scanned (d : Dicts) (w : Bytes) (fs : List WField) (hscan : scanFields w = some fs) (hwf : wfScanned fs = true)
+    (hnum : ∀ f ∈ fs, (tagNum f.tagText).isSome)
+    (hmid : ∀ f ∈ (fs.drop 3).dropLast, ∀ t, tagNum f.tagText = some t → t ≠ 8 ∧ t ≠ 9 ∧ t ≠ 10 ∧ t ≠ 212)
+    (hsmall : w.length < 9223372036854775808) :
+    ∃ m, parseMessage Fixes.cur d w = .ok m ∧ m.raw = some w ∧
+      m.fields = fs.map (fun f => { tag := (tagNum f.tagText).getD 0, value := f.val, bytes := f.raw }) :=
+  faithful_scanned d w fs hscan hwf hnum hmid hsmall
+
+/-- RETRIEVABILITY IN THE SCANNER'S VOCABULARY (no dictionary; any `Fixes`): under the same conditions, the field at position `j` of the
+    scan whose numeric tag `t` no other field of the scan carries is returned by `GetBytes` from the section of `t` with its scanned value. -/
+theorem C11_retrievable_scanned (fx : Fixes) (w : Bytes) (fs : List WField) (hscan : scanFields w = some fs) (hwf : wfScanned fs = true)
+    (hnum : ∀ f ∈ fs, (tagNum f.tagText).isSome)
+    (hmid : ∀ f ∈ (fs.drop 3).dropLast, ∀ t, tagNum f.tagText = some t → t ≠ 8 ∧ t ≠ 9 ∧ t ≠ 10 ∧ t ≠ 212)
+    (hsmall : w.length < 9223372036854775808)
+    (j : Nat) (f : WField) (t : Int) (hj : fs[j]? = some f) (ht : tagNum f.tagText = some t)
+    (huniq : ∀ j' g, fs[j']? = some g → j' ≠ j → tagNum g.tagText ≠ some t) :
+    ∃ m, parseMessage fx Dicts.none w = .ok m ∧ (m.sec (secOf Dicts.none t)).getBytes m.fields t = .ok f.val := by
+  obtain ⟨f8, f9, f35, mid, f10, hfs, hwm, hwire, hbl, htag⟩ := scanned_wireMsg w fs hscan hwf hnum hmid hsmall
+  have hL : tvOf f8 :: tvOf f9 :: tvOf f35 :: (mid.map tvOf ++ [tvOf f10]) = fs.map tvOf := by rw [hfs]; simp
+  have hjL : (tvOf f8 :: tvOf f9 :: tvOf f35 :: (mid.map tvOf ++ [tvOf f10]))[j]? = some (tvOf f) := by
+    rw [hL, List.getElem?_map, hj]; rfl
+  have hft : (tvOf f).tag = t := htag f (List.mem_of_getElem? hj) t ht
+  obtain ⟨m, hm, hget⟩ := C11_retrievable_nodict fx _ _ _ _ _ hwm hbl j (tvOf f) hjL (by
+    intro j' tv' hj' hne
+    rw [hL, List.getElem?_map] at hj'
+    cases hg : fs[j']? with
+    | none => rw [hg] at hj'; cases hj'
+    | some g =>
+      rw [hg] at hj'
+      simp only [Option.map_some, Option.some.injEq] at hj'
+      subst hj'
+      have hgs := hnum g (List.mem_of_getElem? hg)
+      cases htg : tagNum g.tagText with
+      | none => rw [htg] at hgs; cases hgs
+      | some tg =>
+        rw [htag g (List.mem_of_getElem? hg) tg htg, hft]
+        intro e; subst e
+        exact huniq j' g hg hne htg)
+  rw [← hwire] at hm
+  rw [hft] at hget
+  exact ⟨m, hm, hget⟩
+
+/-- the retrievability statement as it used to stand here.  It differs from `C11_retrievable_scanned` only on scans that contain, between
+    MsgType and CheckSum, a field whose tag text reads 8, 9, 10 or 212 without being the text `8` / `9` / `10` (leading zeros), or real
+    XMLData (`212=<n>` followed by data with SOH inside): for those the parser usually rejects the message (then the statement holds
+    vacuously — its hypothesis is a successful parse), but e.g. `… 09=<the right length> …` is accepted with the later BodyLength in force.
+    Whether the statement holds for ALL such inputs is not decided here; it stays a `def`.  The monitor (`Spec.monParse`, `expectGet`)
+    uses numeric tags like the theorem. -/
 def C11_retrievable_full : Prop :=
   ∀ (w : Bytes) (fs : List WField) (m : Message), scanFields w = some fs → wfScanned fs = true →
     parseMessage Fixes.cur Dicts.none w = .ok m →
@@ -390,7 +603,7 @@ def C11_retrievable_full : Prop :=
 theorem C11_orig_no_checksum_faults (fields : List TagValue) (c : PCore) (d : Dicts) :
     parseLoop Fixes.orig d .main fields fields.length c = .fault "index out of range (fields[fieldIndex])" ∧
     parseLoop Fixes.cur d .main fields fields.length c = .err "message ends without CheckSum" := by
-  constructor <;> (unfold parseLoop; simp [Fixes.orig, Fixes.cur])
+  constructor <;> (unfold parseLoop; simp [Fixes.orig, Fixes.cur, outOfFields])
 
 /-- D3 on the unchanged code: an XMLDataLen beyond the buffer is a slice panic (`Fixes.orig`), a parse error now -/
 theorem C11_orig_xml_len_faults (b : Bytes) (e : Nat) (n : Int) (he : indexByte b cEq = some e) (hn : (e : Int) + n + 2 > b.length) :
@@ -416,6 +629,9 @@ example : (extractField [56, 61, 70, 1, 57, 61, 53, 1]).1 = [57, 61, 53, 1] := b
         C11_retrievable_nodict; app / transport+app dictionaries, messages without dictionary groups: C11_faithful_dict_nogroups;
         XMLData with its length (any dictionaries without groups): C11_faithful_xml; any number of dictionary groups with up to two
         nesting levels, plain fields between: C11_faithful_dict_groups (one group: C13_dict_flat_group_*, C13_dict_depth2_group_*);
+        ANY dictionaries, every well-formed wire message (fields, raw): C11_faithful_anydict (C11_checksum_member_swallowed: what an
+        absurd dictionary does); section maps = additions in wire order for any arrangement of plain fields and groups, incl. adjacent groups
+        and header/trailer fields (also user-defined transport tags) directly behind a group: C11_sections_dict_items, C11_retrievable_dict_items;
         any nesting depth: C11_faithful_dict_wellnested (runs described from the dictionary alone), C11_faithful_dict_groups_anydepth; groups directly adjacent / directly followed by a header or trailer
         field: C11_faithful_full, C11_retrievable_full (monitor)
         (monitor clauses accepts_wf, fields_faithful, parsed_sections, retrievable, raw_unchanged); field slicing: C11_extractField_slices
